@@ -473,12 +473,23 @@ class FnA:
         return out | extra
 
 
+def _snapshot_rooted(e):
+    """True when e is a by-value projection (fields / variant downcasts only, no deref) of the result of one particular call
+    execution: a part of a value that was returned, not a read of memory, so no later store can change it."""
+    while isinstance(e, tuple) and e:
+        if e[0] in ("field", "as"):
+            e = e[1]
+            continue
+        return e[0] == "call" and bool(e[3])
+    return False
+
+
 def _mem_keys(e, out):
     if not isinstance(e, tuple) or not e:
         return
     t = e[0]
     if t == "field":
-        if e[2] and not str(e[2]).startswith("closure:") and e[2] != "tuple":
+        if e[2] and not str(e[2]).startswith("closure:") and e[2] != "tuple" and not _snapshot_rooted(e[1]):
             out.add(("f", e[2], e[3]))
         _mem_keys(e[1], out)
     elif t == "var":
